@@ -16,7 +16,10 @@ RULE = (
 )
 ASSUMPTIONS = [
     "one quota per batch for FLP/MCP (their steps finish all rows on a shared counter)",
-    "one FFSP env object serves one episode at a time (per-object index tables), as every caller uses it",
+    "one FFSP env object serves one episode at a time (per-object index tables), as every caller uses it; every other "
+    "environment is stateless as documented (docs/content/intro/environments.md: instance data and state are passed "
+    "in a stateless fashion in the tensordict), so sub `interleaved` drives two unrelated batches through one env "
+    "object with interleaved steps and compares each with its run on a private env object",
     "float state/reward equality up to 1e-6 relative (same float32 ops on the same data), exact for integer/bool state",
 ]
 SKIP_KEYS = {"action", "done", "terminated", "reward"}
@@ -178,6 +181,128 @@ def execute_copies_wrap(case, ctx):
     return execute_copies(case, ctx)
 
 
+# --------------------------------------------------------------------------- interleaved episodes on one env object
+INTERLEAVE_ENVS = [e for e in ALL_ENVS if e != "ffsp"]  # FFSP keeps per-object index tables / step counter (assumption)
+
+
+def interleave_cases(tier):
+    import hypothesis.strategies as st
+
+    from ..envs import ENV_SHAPE_FREE
+
+    @st.composite
+    def c(draw):
+        a = draw(episode_cases(tier, INTERLEAVE_ENVS, max_b=4))
+        name = a["env"]
+        b = draw(episode_cases(tier, [name], max_b=4))
+        # batch B uses batch A's configuration; only what the instances themselves carry may differ: the quota of
+        # flp / mcp and, for the envs that take every size from the data, the size (not for fjsp, whose env object
+        # keeps the shape of the last reset by design: set_instance_params)
+        keep = {}
+        if name in ("flp", "mcp") and draw(st.booleans()):
+            keep["k"] = b["cfg"]["k"]
+        if name in ENV_SHAPE_FREE and name != "fjsp" and draw(st.booleans()):
+            keep.update({k: b["cfg"][k] for k in ENV_SHAPE_FREE[name]})
+        cfg_b = dict(a["cfg"], **keep)
+        if name == "flp":
+            cfg_b["k"] = min(cfg_b["k"], cfg_b["n"])
+        if name == "mcp":
+            cfg_b["k"] = min(cfg_b["k"], cfg_b["sets"])
+            cfg_b["items"] = max(cfg_b["items"], cfg_b["max_size"])
+        if b["src"] != "gen" or cfg_b != b["cfg"]:
+            b = dict(b, src="gen")
+            b.pop("lat", None)
+        b["cfg"] = cfg_b
+        for x in (a, b):
+            x.pop("env_shape", None)
+            x["stepping"] = "default"
+        return {"env": name, "a": a, "b": b, "order": draw(st.lists(st.booleans(), min_size=1, max_size=12))}
+    return c()
+
+
+def execute_interleaved(case, ctx):
+    """Two unrelated batches are driven through ONE env object with their steps interleaved (reset A, reset B, step A,
+    step B, ... in a drawn order); each must behave exactly as when it is run alone on a private env object: the docs
+    state that instance data and state travel in the tensordict ("passed in a stateless fashion")."""
+    name = case["env"]
+    spec = SPECS[name]
+    A, Bc = case["a"], case["b"]
+    sl = spec.slice_of(A["cfg"])
+    ctx.event(f"env:{name}")
+    shared = ctx.guard(spec.env, A["cfg"], what=f"build_env|{name}")
+    runs = []
+    for x in (A, Bc):
+        inst = ctx.guard(spec.instance, x, what=f"instance|{name}")
+        nB = inst.batch_size[0]
+        rows = x["rows"]
+        modes = [rows[i % len(rows)]["mode"] for i in range(nB)]
+        streams = [rows[i % len(rows)]["stream"] for i in range(nB)]
+        cap = max(spec.bound(x["cfg"], py_instance(name, inst[i])) for i in range(nB)) + 3
+        private = ctx.guard(spec.build, x["cfg"], what=f"build_env|{name}")
+        ref = ctx.guard(run_episode, private, inst, modes, streams, cap, False, what=f"solo_episode|{name}|{sl}")
+        runs.append(dict(inst=inst, modes=modes, streams=streams, cap=cap, ref=ref, private=private, n=nB))
+    if any(r["ref"].dead_end is not None or r["ref"].cap_hit or r["ref"].T == 0 for r in runs):
+        ctx.event("aborted_episode(C02 territory)")
+        return
+    from ..episode import pick_actions
+
+    def start(r):
+        r["td"] = shared.reset(r["inst"].clone())
+        r["t"], r["masks"], r["acts"] = 0, [], []
+        r["done"] = row_done(r["td"]["done"], r["n"])
+    ctx.guard(start, runs[0], what=f"reset|{name}")
+    ctx.guard(start, runs[1], what=f"reset|{name}")
+
+    def step(r):
+        mask = flat_mask(r["td"]["action_mask"], r["n"])
+        acts = pick_actions(mask, r["modes"], r["streams"], r["t"])
+        r["masks"].append(mask.clone())
+        if bool((acts < 0).any()):
+            r["dead"] = True
+            return
+        r["acts"].append(acts.clone())
+        td = r["td"].clone()
+        td.set("action", acts)
+        r["td"] = shared.step(td)["next"]
+        r["done"] = row_done(r["td"]["done"], r["n"])
+        r["t"] += 1
+    order = case["order"]
+    i = 0
+    while not all(bool(r["done"].all()) or r.get("dead") for r in runs):
+        pick = 1 if order[i % len(order)] else 0
+        i += 1
+        r = runs[pick]
+        if bool(r["done"].all()) or r.get("dead") or r["t"] >= r["cap"]:
+            r = runs[1 - pick]
+            if bool(r["done"].all()) or r.get("dead") or r["t"] >= r["cap"]:
+                break
+        ctx.guard(step, r, what=f"interleaved_step|{name}|{sl}")
+    switches = sum(1 for x, y in zip(order, order[1:]) if x != y)
+    for tag, r in zip("AB", runs):
+        ref = r["ref"]
+        det = {"batch": tag, "interleaved_actions": [a.tolist() for a in r["acts"]], "solo_actions": ref.actions_tensor().t().tolist(),
+               "order": order}
+        if r.get("dead") or not bool(r["done"].all()) or r["t"] != ref.T:
+            ctx.violation(f"{name}|{sl}|interleaved|episode_length", f"batch {tag}: {r['t']} steps (dead end {bool(r.get('dead'))}) when "
+                          f"interleaved with another batch on the same env object, {ref.T} steps alone", det)
+            continue
+        for t in range(ref.T):
+            if not torch.equal(r["masks"][t], ref.masks[t]):
+                ctx.violation(f"{name}|{sl}|interleaved|mask", f"batch {tag}: mask at step {t} differs from the run on a private env object", det)
+                break
+        else:
+            Ai = torch.stack(r["acts"], 1)
+            r1 = ctx.guard(shared.get_reward, r["td"].clone(), Ai.clone(), what=f"get_reward|{name}|{sl}").reshape(r["n"], -1).double()
+            r0 = ctx.guard(r["private"].get_reward, ref.td.clone(), ref.actions_tensor().clone(), what=f"get_reward|{name}|{sl}").reshape(r["n"], -1).double()
+            if r1.shape != r0.shape or not bool(((r1 - r0).abs() <= 1e-6 * (1 + r0.abs())).all()):
+                ctx.violation(f"{name}|{sl}|interleaved|reward", f"batch {tag}: reward {r1.tolist()} when interleaved vs {r0.tolist()} alone", det)
+    if switches >= 1 and runs[0]["ref"].T >= 2 and runs[1]["ref"].T >= 2:
+        ctx.nontriv()
+    if A["cfg"] != Bc["cfg"]:
+        ctx.event("interleaved:different_configs")
+    ctx.sample({"env": name, "cfg_a": A["cfg"], "cfg_b": Bc["cfg"], "order": order, "steps": [r["t"] for r in runs]})
+
+
 def preimport():
     from ..eda import data_dir
     data_dir()
@@ -187,5 +312,6 @@ SUBS = [
     Sub("solo_vs_batched", execute, strategy=lambda tier: episode_cases(tier, ALL_ENVS),
         budget={"quick": 3500, "thorough": 40000}, shards=16),
     Sub("copies", execute_copies_wrap, strategy=copies_cases, budget={"quick": 800, "thorough": 10000}, shards=16),
+    Sub("interleaved", execute_interleaved, strategy=interleave_cases, budget={"quick": 960, "thorough": 12000}, shards=16),
 ]
 TIME_CAP = {"quick": 400, "thorough": 3000}
